@@ -209,7 +209,8 @@ class Peer(object):
                 result = int(result)
             except ValueError:
                 pass
-        return result if isinstance(result, int) else None
+        # JSON true / false are ints in Python; they are not numbers
+        return result if isinstance(result, int) and not isinstance(result, bool) else None
 
     def _string(self, key):
         result = self.features.get(key)
